@@ -103,6 +103,8 @@ def parse_overlay(path):
         kind = sect[0]
         if kind == 'items':
             if text.strip(): ov['items'].append((sect[1], text))
+        elif kind == 'text':
+            if cur is not None: cur['text'].append(text)
         elif cur is not None and text.strip():
             cur.setdefault(kind, []).append((sect[1:], text))
 
@@ -149,6 +151,17 @@ def parse_overlay(path):
             flush()
             m = re.match(r'@(before|after)\s+"(.*)"(?:\s+#(\d+))?', st)
             sect = (m.group(1), m.group(2), int(m.group(3) or 1))
+        elif st.startswith('@block') or st.startswith('@decl'):
+            flush(); cur = None
+            m = re.match(r'@(block|decl)\s+"(.*)"(?:\s+props=(\S+))?', st)
+            ent = {'kind': m.group(1), 'needle': m.group(2), 'props': m.group(3).split(',') if m.group(3) else None, 'text': []}
+            ov.setdefault('anchors', []).append(ent)
+            cur = ent
+            sect = ('text',)
+        elif st.startswith('@supertrait'):
+            flush(); cur = None; sect = None
+            m = re.match(r'@supertrait\s+(\w+)\s+(\S+)', st)
+            ov.setdefault('supertraits', []).append((m.group(1), m.group(2)))
         elif st.startswith('@items'):
             flush(); cur = None
             parts = st.split()
@@ -252,8 +265,27 @@ class Weaver:
         for fn in sorted(os.listdir(contracts_dir)):
             if fn.endswith('.vspec'):
                 ov = parse_overlay(os.path.join(contracts_dir, fn))
-                if ov['file'] in self.overlays: raise ValueError('two overlays for ' + ov['file'])
-                self.overlays[ov['file']] = ov
+                if ov['file'] in self.overlays:
+                    o0 = self.overlays[ov['file']]
+                    dup = set(o0['fns']) & set(ov['fns'])
+                    if dup: raise ValueError(f"{fn}: functions listed twice for {ov['file']}: {dup}")
+                    for q, sp in ov['fns'].items():
+                        if sp['props'] is None: sp['props'] = ov['props']
+                        sp['ovpath'] = ov['path']
+                    o0['fns'].update(ov['fns'])
+                    o0['structs'] += [x for x in ov['structs'] if x not in o0['structs']]
+                    o0['items'] += [(pr or ov['props'], t) for pr, t in ov['items']]
+                    o0.setdefault('anchors', []).extend([dict(a, props=a['props'] or ov['props']) for a in ov.get('anchors', [])])
+                    o0.setdefault('consts', {}).update(ov.get('consts') or {})
+                    o0.setdefault('supertraits', []).extend(ov.get('supertraits', []))
+                    o0['props'] = sorted(set(o0['props']) | set(ov['props']))
+                else:
+                    for q, sp in ov['fns'].items():
+                        if sp['props'] is None: sp['props'] = ov['props']
+                    ov['items'] = [(pr or ov['props'], t) for pr, t in ov['items']]
+                    for a in ov.get('anchors', []):
+                        a['props'] = a['props'] or ov['props']
+                    self.overlays[ov['file']] = ov
         if os.path.isdir(prelude_path):
             self.prelude = '\n'.join(open(os.path.join(prelude_path, f)).read()
                                      for f in sorted(os.listdir(prelude_path)) if f.endswith('.rs'))
@@ -370,6 +402,32 @@ class Weaver:
             edits.append((m.start(3), m.end(3), rep(' ', ' = ') + ins(f"{ov['path']}:const {cname}", ov['props'], clause + ' ')))
             edits.append((semi, semi + 1, rep(' }', ';')))
 
+        # file-level text anchors: @block (insert after the '{' of the block whose header contains the needle),
+        # @decl (insert before the ';' of a body-less declaration containing the needle)
+        for n, a in enumerate(ov.get('anchors', [])):
+            idxs = [m.start() for m in re.finditer(re.escape(a['needle']), s) if code(m.start())]
+            if len(idxs) != 1:
+                self.lost.append(f"{rel}: @{a['kind']} \"{a['needle']}\" ({len(idxs)} matches)"); continue
+            i = idxs[0] + len(a['needle']); pd = 0
+            want = '{' if a['kind'] == 'block' else ';'
+            while i < len(s):
+                if mask[i]:
+                    c = s[i]
+                    if c in '([': pd += 1
+                    elif c in ')]': pd -= 1
+                    elif pd == 0 and c in '{;': break
+                i += 1
+            if i >= len(s) or s[i] != want:
+                self.lost.append(f"{rel}: @{a['kind']} \"{a['needle']}\" (no '{want}')"); continue
+            pos = i + 1 if a['kind'] == 'block' else i
+            edits.append((pos, pos, ins(f"{ov['path']}:{a['kind']}[{a['needle'][:40]}]", a['props'], '\n' + '\n'.join(a['text']) + '\n')))
+        for tname, bound in ov.get('supertraits', []):
+            m = re.search(r'(?m)^([ \t]*)(pub\s+)?trait ' + re.escape(tname) + r'\b', s)
+            if not m or not code(m.start() + len(m.group(1))):
+                self.lost.append(f"{rel}: trait {tname}"); continue
+            self.rec('T12', rel, s, m.start(), m.group(0) + ': ' + bound)
+            edits.append((m.end(), m.end(), rep(': ' + bound, '')))
+
         fns, _ = index_functions(s, mask)
         byq = {}
         for f in fns:
@@ -414,6 +472,18 @@ class Weaver:
                 for m in re.finditer(r'\.map\(\|_\|', body):
                     p = f['open'] + m.start()
                     if code(p): edits.append((p, p + len('.map(|_|'), rep('.map(|_i|', '.map(|_|')))
+            # T11 `x: &mut impl Trait` -> named type parameter (same meaning in Rust; lets contracts name the type)
+            if re.search(r':\s*&mut impl [A-Za-z_:]+', sig) and not re.search(r'fn\s+\w+\s*<', sig):
+                names = []
+                for k, m in enumerate(re.finditer(r'(:\s*&mut )impl ([A-Za-z_:]+)', sig)):
+                    nm = 'V' + m.group(2).split('::')[-1] + (str(k) if k else '')
+                    names.append((nm, m.group(2)))
+                    a = f['start'] + m.start() + len(m.group(1))
+                    edits.append((a, f['start'] + m.end(), rep(nm, s[a:f['start'] + m.end()])))
+                mm = re.search(r'fn\s+\w+', sig)
+                a = f['start'] + mm.end()
+                edits.append((a, a, rep('<' + ', '.join(f"{n}: {t}" for n, t in names) + '>', '')))
+                self.rec('T11', rel, s, f['start'], qual)
             # T3 mut self
             m3 = re.search(r'\(\s*(mut self)\s*[,)]', sig)
             if m3:
